@@ -1067,7 +1067,8 @@ class Engine:
             hc = handle_class(t)
             lc = lock_class(t)
             if len(args) == 1 and (handle_class(ptypes[0]) or lock_class(ptypes[0])):
-                return self._summ_expr(g, la, args[0], pos, cond)
+                # (a named handle returned by value is moved / copied here: its state is the one BEFORE this construction)
+                return self._summ_expr(g, la, args[0], g.pos_of(e) or pos, cond)
             if hc and len(args) > 2:
                 r = self.handle_ctor_lock(g, la, e, pos)
                 if r is None:
@@ -1136,6 +1137,20 @@ class Engine:
             v = la.state_at(pos).get(p) if pos else None
             if v is None:
                 return None
+            # a named handle built once in this function and only handed on: what it was built from
+            if e["d"].get("k") == "local" and handle_class(t):
+                inits = [g.s(d.get("init")) for s_ in g.stmts.values() if s_["k"] == "DeclStmt" for d in s_["decls"]
+                         if d["id"] == e["d"].get("id") and d.get("init")]
+                touched = [s_ for s_ in g.stmts.values() if s_["k"] in ("CXXMemberCallExpr", "CXXOperatorCallExpr") and
+                           ((s_["k"] == "CXXMemberCallExpr" and path(g, g.s(s_.get("obj"))) == p and
+                             (s_.get("callee") or {}).get("name") in ("unlock", "reset", "release", "swap")) or
+                            (s_["k"] == "CXXOperatorCallExpr" and s_.get("op") == "=" and s_["args"] and path(g, g.s(s_["args"][0])) == p))]
+                if len(inits) == 1 and not touched:
+                    iu = unwrap(g, inits[0])
+                    if iu is not None and iu["k"] in CTORS and handle_class(iu.get("t", "")) and len(iu.get("args", [])) >= 2:
+                        a = self._summ_expr(g, la, iu, g.pos_of(iu) or pos, cond)
+                        if a is not None:
+                            return a
             return [dict(data="?", mutex=v.mutex, mode=v.mode, st=v.st, blocking=False,
                          cond=cond, site=g.loc(e))]
         if k == "InitListExpr":
@@ -1419,6 +1434,15 @@ class Engine:
                 if args and args[0] == cur["id"] and c.get("kind") in ("op", "method") and c.get("rec"):
                     return ("call-const" if c.get("constm") else "call", par)
                 return self._arg_use(f, par, cur)
+            if k == "CallExpr" and callee_fq(par) == "std::addressof" and par.get("args") and par["args"][0] == cur["id"]:
+                # std::addressof(x) is `&x` (for types that overload operator&): the address is what is used
+                t = par.get("t", "")
+                up = f.par(par)
+                while up is not None and up["k"] in ("ImplicitCastExpr", "ParenExpr"):
+                    if is_pointer_to_const(up.get("t", "")):
+                        return ("addr-const", par)
+                    up = f.par(up)
+                return ("addr-const" if is_pointer_to_const(t) else "addr", par)
             if k in ("CallExpr",) + CTORS:
                 return self._arg_use(f, par, cur)
             if k in ("MaterializeTemporaryExpr", "CXXBindTemporaryExpr", "ExprWithCleanups",
